@@ -486,6 +486,11 @@ func reachAvoid(from ssa.Instruction, target, barrier func(ssa.Instruction) bool
 }
 
 func reachFrom(b *ssa.BasicBlock, startIdx int, target, barrier func(ssa.Instruction) bool) (ssa.Instruction, []*ssa.BasicBlock) {
+	return reachFromE(b, startIdx, target, barrier, nil)
+}
+
+// reachFromE additionally refuses to follow CFG edges for which edgeBarrier(from,to) holds.
+func reachFromE(b *ssa.BasicBlock, startIdx int, target, barrier func(ssa.Instruction) bool, edgeBarrier func(from, to *ssa.BasicBlock) bool) (ssa.Instruction, []*ssa.BasicBlock) {
 	type item struct {
 		b    *ssa.BasicBlock
 		idx  int
@@ -515,6 +520,9 @@ func reachFrom(b *ssa.BasicBlock, startIdx int, target, barrier func(ssa.Instruc
 			continue
 		}
 		for _, s := range it.b.Succs {
+			if edgeBarrier != nil && edgeBarrier(it.b, s) {
+				continue
+			}
 			if !visited[s] {
 				visited[s] = true
 				queue = append(queue, &item{s, 0, it})
